@@ -40,6 +40,7 @@ type c03Case struct {
 	Codec    string      `json:"codec,omitempty"` // json | protobuf | octet-stream
 	Gzip     bool        `json:"gzip,omitempty"`
 	Chunked  bool        `json:"chunked,omitempty"` // body of unknown length (Content-Length -1)
+	Accept   string      `json:"accept,omitempty"`  // Accept header (a reply type other than the body's type)
 	Negative bool        `json:"negative,omitempty"`
 }
 
@@ -196,6 +197,9 @@ func (e *c03Env) build(tc *c03Case) (req *http.Request, want protoreflect.Messag
 				hdr.Set("Content-Encoding", "gzip")
 			}
 		}
+	}
+	if tc.Accept != "" {
+		hdr.Set("Accept", tc.Accept)
 	}
 	req = &http.Request{Method: verb, URL: &url.URL{Path: path, RawQuery: q.Encode()}, Header: hdr,
 		Proto: "HTTP/1.1", ProtoMajor: 1, ProtoMinor: 1, Host: "verif.test"}
@@ -455,7 +459,7 @@ func c03Key(tc *c03Case) string {
 	for _, a := range tc.Assigns {
 		as = append(as, fmt.Sprintf("%s=%q@%s", a.Field, a.Text, a.Channel))
 	}
-	return fmt.Sprintf("rule=%s codec=%s gzip=%v chunked=%v neg=%v %s", tc.Rule, tc.Codec, tc.Gzip, tc.Chunked, tc.Negative, strings.Join(as, " & "))
+	return fmt.Sprintf("rule=%s codec=%s gzip=%v chunked=%v accept=%q neg=%v %s", tc.Rule, tc.Codec, tc.Gzip, tc.Chunked, tc.Accept, tc.Negative, strings.Join(as, " & "))
 }
 
 // c03Class groups cases for reporting (one replay per class and oracle).
@@ -468,12 +472,12 @@ func c03Class(tc *c03Case) string {
 		}
 		as = append(as, fmt.Sprintf("%s@%s", f, a.Channel))
 	}
-	return fmt.Sprintf("%s|%s|%v|%v|%s", tc.Rule, tc.Codec, tc.Gzip, tc.Chunked, strings.Join(as, "&"))
+	return fmt.Sprintf("%s|%s|%v|%v|%s|%s", tc.Rule, tc.Codec, tc.Gzip, tc.Chunked, tc.Accept, strings.Join(as, "&"))
 }
 
 func runC03(c *Ctx) {
 	r := c.Run
-	r.Rule("ComplexRequest (15 scalar kinds, enum, bytes, repeated scalars, nested message, oneof members, wrappers, Timestamp/Duration/FieldMask) × rules {no body, body '*', body 'nested', path variable on every bindable field ± body} × every field × every boundary value × every spelling × every channel (path, query by proto name, query by JSON name, body JSON/protobuf/octet-stream ± gzip, with known and with unknown Content-Length); pairs of fields in different channels (quick: all ordered pairs, 2 × 1 values; thorough: all ordered pairs × every value of both fields, plus every ordered triple path+query+nested-body); negative: texts invalid under every reading, in query and path; distinct = (rule, codec, channels, field) classes")
+	r.Rule("ComplexRequest (15 scalar kinds, enum, bytes, repeated scalars, nested message, oneof members, wrappers, Timestamp/Duration/FieldMask) × rules {no body, body '*', body 'nested', path variable on every bindable field ± body} × every field × every boundary value × every spelling × every channel (path, query by proto name, query by JSON name, body JSON/protobuf/octet-stream ± gzip, with known and with unknown Content-Length, without and with an Accept header naming another codec); pairs of fields in different channels (quick: all ordered pairs, 2 × 1 values; thorough: all ordered pairs × every value of both fields, plus every ordered triple path+query+nested-body); negative: texts invalid under every reading, in query and path; distinct = (rule, codec, channels, field) classes")
 	r.Assume("not demanded: NaN/Infinity, 'True'/'1' for bool, leading '+'/zeros, exponent or '.0' forms for integers, mixed base64 alphabets, empty or quoted wrapper text, Content-Type with parameters, JSON null, empty sub-message as protobuf body")
 	env0, err := newC03Env()
 	if err != nil {
@@ -497,9 +501,22 @@ func runC03(c *Ctx) {
 			g.cases = append(g.cases, tc)
 		}
 	}
+	// … and with an Accept header that negotiates a reply type other than the body's own type
+	// (the request body must still be decoded by its Content-Type)
+	for i := 0; i < nBefore; i++ {
+		if tc := g.cases[i]; tc.Codec != "" {
+			switch tc.Codec {
+			case "json":
+				tc.Accept = "application/protobuf"
+			default:
+				tc.Accept = []string{"application/json", "*/*"}[i%2]
+			}
+			g.cases = append(g.cases, tc)
+		}
+	}
 	nChunked := len(g.cases) - nBefore
 	g.negatives()
-	r.Set("chunked_variants", nChunked)
+	r.Set("chunked_and_accept_variants", nChunked)
 	r.Set("cases", map[string]int{"singles": nSingles, "pairs": nPairs, "triples": nTriples, "negatives": len(g.cases) - nSingles - nPairs - nTriples - nChunked})
 
 	envs := make([]*c03Env, explore.Workers)
